@@ -15,6 +15,10 @@ CHECKS = {
             'R01d every term-carrying handler steps down on a higher term, R01e acknowledged match_index and follower commit bound '
             'slice from prev_log_index',
             'MIR cut-reachability, must-pass switch edges, backward data slices, sibling cross-check'),
+    'C02': ('§3 C02', 'R02a log-before-apply (apply reachable only through the Ok-edge of the WAL append) and fsync discipline of '
+            'TensorWal::append/maybe_sync/sync/fsync, R02b tail repair on reopen, R02c checkpoint order snapshot→marker→truncate and '
+            'the Checkpoint arm of recovery, R02d rotation writer/reader agreement, R02e replay stops at the first bad record',
+            'MIR cut-reachability with constant propagation, call-graph reachability, must-pass-through'),
     'C10': ('§3 C10', 'R01a persist-before-mutate of term/vote (cut-reachability over Ok-edges of the persist call, all write sites '
             'in the workspace), R10a every log growth site reaches success only through a successful persist, R10c recovery '
             'table covers every record the node writes and keeps the first vote of a term, R02b tail repair on reopen, R02e replay '
